@@ -69,6 +69,9 @@ def gen_scenario(rng, frontend):
         ints.append({'id': i, 'name': nm, 'cbp': rng.random() < 0.4, 'L': L, 'te': te, 'lat': lat, 'aw': aw,
                      'verdict': rng.choice(V2_VERDICTS if frontend == 'v2' else V1_VERDICTS), 'digest': dig,
                      'placeholder': dig is None and rng.random() < 0.06})
+        # MustBeFresh is a request to the network: the consumer side takes whatever Data comes back (the scripted Data carry no
+        # FreshnessPeriod, or 0, or a positive one)
+        ints[-1]['mbf'] = rng.random() < 0.3
         if dig is None and not ints[-1]['placeholder'] and rng.random() < 0.06:
             ints[-1]['signed_np'] = True      # a signer but no ApplicationParameters: the digest component is appended all the same
     # candidate times: every deadline -1/0/+1, every express time, claim+latency points
@@ -318,7 +321,7 @@ def execute(sc):
     fe = sc['frontend']
     R = Run(sc)
     for d in sc['datas']:
-        w = bytes(make_data(NAMES[d['name']], MetaInfo(), b'D%d' % d['id'], DigestSha256Signer()))
+        w = bytes(make_data(NAMES[d['name']], MetaInfo(freshness_period=(None, 0, 1000, None)[d['id'] % 4]), b'D%d' % d['id'], DigestSha256Signer()))
         R.data_wires.append(w)
         R.data_digest.append(hashlib.sha256(w).digest())
         # the same Data as another producer may encode it: integers (ContentType, SignatureType) in a wider legal width
@@ -404,13 +407,14 @@ def execute(sc):
             if it.get('signed_np'):
                 if fe == 'v2':
                     coro = the_app.express(nm, make_validator(it), signer=DigestSha256Signer(for_interest=True),
-                                           lifetime=lifetime or it['L'], can_be_prefix=it['cbp'], nonce=1000 + it['id'])
+                                           lifetime=lifetime or it['L'], can_be_prefix=it['cbp'], must_be_fresh=it.get('mbf', False), nonce=1000 + it['id'])
                 else:
                     coro = the_app.express_interest(nm, validator=make_validator(it), signer=DigestSha256Signer(for_interest=True),
-                                                    lifetime=lifetime or it['L'], can_be_prefix=it['cbp'], nonce=1000 + it['id'])
+                                                    lifetime=lifetime or it['L'], can_be_prefix=it['cbp'], must_be_fresh=it.get('mbf', False), nonce=1000 + it['id'])
             elif sc.get('shared_param') and app_param is None:
                 # legal API form: one InterestParam object reused (and modified) by the caller for every Interest
                 shared.can_be_prefix = it['cbp']
+                shared.must_be_fresh = it.get('mbf', False)
                 shared.lifetime = lifetime or it['L']
                 shared.nonce = 1000 + it['id']
                 if fe == 'v2':
@@ -420,12 +424,12 @@ def execute(sc):
             elif fe == 'v2':
                 coro = the_app.express(nm, make_validator(it), app_param=app_param,
                                        signer=DigestSha256Signer(for_interest=True) if app_param is not None else None,
-                                       lifetime=lifetime or it['L'], can_be_prefix=it['cbp'], nonce=1000 + it['id'])
+                                       lifetime=lifetime or it['L'], can_be_prefix=it['cbp'], must_be_fresh=it.get('mbf', False), nonce=1000 + it['id'])
             else:
                 if app_param is not None:
                     kwargs['signer'] = DigestSha256Signer(for_interest=True)
                 coro = the_app.express_interest(nm, app_param=app_param, validator=make_validator(it),
-                                                lifetime=lifetime or it['L'], can_be_prefix=it['cbp'], nonce=1000 + it['id'],
+                                                lifetime=lifetime or it['L'], can_be_prefix=it['cbp'], must_be_fresh=it.get('mbf', False), nonce=1000 + it['id'],
                                                 **kwargs)
             R.int_wires[it['id']] = face.sent[n0][1] if len(face.sent) > n0 else None
             return coro
